@@ -542,6 +542,47 @@ fn line_space(thorough: bool) -> Vec<Line> {
     let names: [S; 7] = ["a", "a$b", "<init>", "-$$Lambda$1", "x1", "\u{dc}", "a-b"];
     let clss: [Option<S>; 4] = [None, Some("a"), Some("a.b.C"), Some("\u{e9}.Map$Entry")];
     let obfs: &[S] = if thorough { &["a", "<init>", "x1", "\u{e9}", "a-b", "a.b"] } else { &["a", "<init>", "\u{e9}"] };
+    // role family: one role at a time carries a special identifier - every special character of
+    // families::special_chars() (all UTF-8 continuation bytes, all lead-byte classes, ASCII punctuation) in the
+    // middle of a name, and long identifiers around the 1 KiB / 4 KiB / 64 KiB marks
+    {
+        let mut specials: Vec<S> = Vec::new();
+        for c in crate::families::special_chars() {
+            if matches!(c, '"') {
+                continue;
+            }
+            specials.push(leak(&format!("x{}y", c)));
+        }
+        for l in [255usize, 1023, 1024, 1025, 4096, 65536] {
+            specials.push(leak(&"k".repeat(l)));
+        }
+        let long_args: S = leak(&(0..60).map(|i| format!("java.lang.String{:06}", i)).collect::<Vec<_>>().join(","));
+        for sp in &specials {
+            let sp: S = sp;
+            let no_comma_paren = !sp.contains(',');
+            v.push(class(sp, "a"));
+            v.push(class("a.B", sp));
+            v.push(Line::Field { ty: sp, orig: "f", obf: "g" });
+            v.push(Line::Field { ty: "int", orig: sp, obf: "g" });
+            v.push(Line::Field { ty: "int", orig: "f", obf: sp });
+            v.push(Line::Header { key: "compiler", value: Some(sp) });
+            if !sp.contains(':') {
+                v.push(Line::Header { key: sp, value: Some("v") });
+            }
+            for r in [None, Some((1u64, 2u64))] {
+                let o = if r.is_some() { Orig::SE(3, 4) } else { Orig::None };
+                v.push(Line::Method { range: r, ty: sp, cls: None, name: "n", args: "", orig: o, obf: "m" });
+                v.push(Line::Method { range: r, ty: "void", cls: Some(sp), name: "n", args: "", orig: o, obf: "m" });
+                v.push(Line::Method { range: r, ty: "void", cls: Some("a.B"), name: sp, args: "int", orig: o, obf: "m" });
+                if no_comma_paren {
+                    v.push(Line::Method { range: r, ty: "void", cls: None, name: "n", args: sp, orig: o, obf: "m" });
+                }
+                v.push(Line::Method { range: r, ty: "void", cls: None, name: "n", args: "", orig: o, obf: sp });
+            }
+        }
+        v.push(Line::Method { range: Some((1, 2)), ty: "void", cls: Some("a.B"), name: "n", args: long_args, orig: Orig::SE(3, 4), obf: "m" });
+        v.push(Line::SourceFile(leak(&"S".repeat(2000))));
+    }
     for r in &ranges {
         for o in &origs {
             for ty in tys {
